@@ -4,8 +4,10 @@ pub mod engine;
 pub mod ethip;
 pub mod hist;
 pub mod mutate;
+pub mod props_acl;
 pub mod props_codec;
 pub mod props_conf;
+pub mod props_policy;
 pub mod props_ra;
 pub mod rfc4861;
 pub mod props_crash;
@@ -69,6 +71,21 @@ pub fn run_check(id: &str, tier: Tier) -> i32 {
             ctx.assume("frames shorter than 14 octets cannot be delivered to the LLDP service by the kernel; the LLDP target starts after the Ethernet header");
             props_crash::run_c05_func(&ctx);
         }
+        "C02" => {
+            ctx.rule("address-set: generated configurations (0..2 top-level addresses /22../30 with and without host bits; dhcp-policies trees depth<=3 width<=3 with match-subnet/match-hardware-address and apply-address/apply-subnet/apply-range blocks cut from one /22 so that parents, children and siblings overlap; receiving address on first/last/middle host, inside a child's block, or on another subnet) rendered to YAML and loaded through the real loader; oracle: documented set D from an independent model of erbium.conf(5); pools <= 300 addresses are drained with fresh client identifiers (leases == D exactly, each once), larger pools are probed with option 50 at every boundary; non-trivial = D non-empty and different from a plain host range");
+            ctx.assume("unconstrained (manual silent): the server's own address and the network/broadcast addresses when an explicit apply-range/apply-address/apply-subnet names them; overlap between sibling policies");
+            props_policy::run_c02(&ctx);
+        }
+        "C11" => {
+            ctx.rule("options: generated policy trees (conditions: match-subnet, match-hardware-address, match-host-name/class-id/user-class with value or null; apply-<option> with value or null over 20 options with unambiguous RFC 2132 encodings; top-level dns-servers with $self4/IPv6 entries, dns-search, captive-portal; interface MTU and router) x requests (receiving address, chaddr, option values, parameter request list incl. empty and absent); oracle: independent model of the manual's semantics, options(reply) == model as a map code -> bytes (domain search compared as a decoded list); non-trivial = two siblings match, an inner policy or a policy overrides an outer/default value, null unsets, or an applied option is withheld by the parameter list");
+            ctx.assume("unconstrained (manual silent): netmask/broadcast when two different matching subnets are in play; empty list values; options 53/54/51 are protocol fields");
+            props_policy::run_c11(&ctx);
+        }
+        "C08" => {
+            ctx.rule("decision: generated ACL lists (0..6 rules or the documented defaults; match-subnets over IPv4/IPv6/::ffff-mapped prefixes of every length, with and without host bits; match-unix true/false/absent; any subset of the six access strings) rendered to YAML and loaded through the real loader; clients placed at the first/last address of a prefix, just before/after it, inside it, anywhere, as IPv4, IPv6, IPv4-mapped or unix; oracle: reference first-match model vs require_permission for the four operations incl. the refusal kind; non-trivial = a prefix written with host bits, a mapped client, or a case where rule order matters");
+            ctx.assume("unconstrained (documentation silent): pure IPv4 client against an IPv6 prefix shorter than /96 that covers the mapped range; whether the http-ro alias grants the root page");
+            props_acl::run_c08_func(&ctx);
+        }
         "C17" => {
             ctx.rule("build: generated interface sections (every field absent/null/value; lifetimes {0,1,8,600,1800,9000,9001,65535,65536,4294967,4294968,2^31,2^32-1,2^32,random} written as integers, '<n>s', mixed units or digit strings; 0..6 prefixes of any length with and without host bits; RDNSS 0..8 incl. $self6; DNSSL domains of 1..8 labels; PREF64 lengths {32,40,48,56,64,96}; URLs 0..240 octets) plus top-level defaults, rendered to YAML, loaded through the real loader, built by the pure builder, serialised, and decoded by a decoder written from RFC 4861/8106/8781/8910; oracle: decoded == expected(config), reserved fields zero, unrepresentable values rejected or clamped; non-trivial = >= 3 option kinds in the message or an unrepresentable value");
             ctx.assume("the mtu / lifetime tri-state resolution against interface and routing table lives in the impure wrapper and is decided by the wire tier; the hook takes the resolved values as parameters");
@@ -117,7 +134,9 @@ pub fn run_replay(path: &str) -> i32 {
         .or_else(|| props_dnsfunc::replay(id, sub, case))
         .or_else(|| props_crash::replay(id, sub, case))
         .or_else(|| props_conf::replay(id, sub, case))
-        .or_else(|| props_ra::replay(id, sub, case));
+        .or_else(|| props_ra::replay(id, sub, case))
+        .or_else(|| props_acl::replay(id, sub, case))
+        .or_else(|| props_policy::replay(id, sub, case));
     match res {
         None => {
             eprintln!("no replayer for {} / {}", id, sub);
